@@ -69,6 +69,21 @@ class Opaque:
 
 
 @dataclass(frozen=True)
+class Cand(Opaque):
+    """a candidate set of labels known to exclude the listed label tokens (np.setdiff1d(all, taken))"""
+
+    excluded: tuple = ()
+
+
+@dataclass(frozen=True)
+class LabelTok(Opaque):
+    """one label drawn from a candidate set; `excluded` = tokens it is known to differ from"""
+
+    tid: str = ""
+    excluded: tuple = ()
+
+
+@dataclass(frozen=True)
 class NoneV:
     pass
 
@@ -1274,6 +1289,9 @@ class Machine:
             return fv.v
         if isinstance(fv, _RngMethod):
             self.log("rng-draw", fv.name, e, fi)
+            if fv.name == "choice" and len(args) == 1 and not kwargs and isinstance(args[0], Opaque):
+                # a single label drawn from a candidate set: remember which earlier draws it cannot coincide with
+                return LabelTok("rng.choice", True, self.fresh("lab"), args[0].excluded if isinstance(args[0], Cand) else ())
             return Opaque(f"rng.{fv.name}", True)
         if isinstance(fv, _FreshAtomsMethod):
             if fv.name == "copy":
